@@ -56,10 +56,12 @@ INLINE_CODE_SPAN = AtomicPattern(
     close_re="",
 )
 
-# Markdown links: [text](url) or [text][ref] or [text]
+# Markdown links: [text](url) or [text][ref] or [text]. The text may hold bracket pairs of its
+# own (a footnote reference, `[note[^1]](url "title")`); without them in the pattern the
+# link ended at the first `]` and could be broken inside its destination.
 MARKDOWN_LINK = AtomicPattern(
     name="markdown_link",
-    pattern=r"\[[^\]]*\](?:\([^)]*\)|\[[^\]]*\])?",
+    pattern=r"\[(?:[^\[\]]|\[[^\[\]]*\])*\](?:\([^)]*\)|\[[^\]]*\])?",
     open_delim="",
     close_delim="",
     open_re="",
